@@ -100,13 +100,15 @@ type primShape struct {
 	first         func(o, d pvec) (primHit, bool)
 	ball          func(c pvec, r float64) bool
 	special       []primSpecial
-	circles       []primCircle // creases of the surface: circles
-	points        []pvec       // creases of the surface: isolated points (apex, 2D corners)
-	boxEdges      bool         // creases are the edges of an axis-aligned box (decided from the hit points)
-	coneAxis      *pvec        // cone: unit axis, and
-	coneSlope     float64      // radius / height (rays parallel to a generator line are not in general position)
-	approx        float64      // > 0: a sampling collider of that resolution (positions to that accuracy, noisy normals, no ball queries)
-	hasNoNormal   bool         // the distance field offers no NormalSDF (extruded profiles): normal clauses are not asked
+	circles       []primCircle         // creases of the surface: circles
+	points        []pvec               // creases of the surface: isolated points (apex, 2D corners)
+	boxEdges      bool                 // creases are the edges of an axis-aligned box (decided from the hit points)
+	coneAxis      *pvec                // cone: unit axis, and
+	coneSlope     float64              // radius / height (rays parallel to a generator line are not in general position)
+	approx        float64              // > 0: a sampling collider of that resolution (positions to that accuracy, noisy normals, no ball queries)
+	oracleDist    func(pvec) float64   // independent (harness-side) distance from a point to the surface; may be nil
+	normalAt      func(p, n pvec) bool // if set: n is an admissible normal at the surface point p (replaces primNormalAt)
+	hasNoNormal   bool                 // the distance field offers no NormalSDF (extruded profiles): normal clauses are not asked
 }
 
 type prim3 interface {
@@ -664,6 +666,116 @@ func genSolidCollider(rng *rand.Rand, kind int) *primShape {
 	return s
 }
 
+// closest point of triangle abc to p by Voronoi-region classification (Ericson, Real-Time Collision
+// Detection 5.1.5) - deliberately not the projection-and-clamp scheme of the library
+func bruteTriDist(p, a, b, c pvec) float64 {
+	ab, ac, ap := pvSub(b, a), pvSub(c, a), pvSub(p, a)
+	d1, d2 := pvDot(ab, ap), pvDot(ac, ap)
+	if d1 <= 0 && d2 <= 0 {
+		return pvNorm(ap)
+	}
+	bp := pvSub(p, b)
+	d3, d4 := pvDot(ab, bp), pvDot(ac, bp)
+	if d3 >= 0 && d4 <= d3 {
+		return pvNorm(bp)
+	}
+	vc := d1*d4 - d3*d2
+	if vc <= 0 && d1 >= 0 && d3 <= 0 {
+		return pvNorm(pvSub(p, pvAdd(a, pvScale(ab, d1/(d1-d3)))))
+	}
+	cp := pvSub(p, c)
+	d5, d6 := pvDot(ab, cp), pvDot(ac, cp)
+	if d6 >= 0 && d5 <= d6 {
+		return pvNorm(cp)
+	}
+	vb := d5*d2 - d1*d6
+	if vb <= 0 && d2 >= 0 && d6 <= 0 {
+		return pvNorm(pvSub(p, pvAdd(a, pvScale(ac, d2/(d2-d6)))))
+	}
+	va := d3*d6 - d5*d4
+	if va <= 0 && (d4-d3) >= 0 && (d5-d6) >= 0 {
+		w := (d4 - d3) / ((d4 - d3) + (d5 - d6))
+		return pvNorm(pvSub(p, pvAdd(b, pvScale(pvSub(c, b), w))))
+	}
+	den := 1 / (va + vb + vc)
+	q := pvAdd(a, pvAdd(pvScale(ab, vb*den), pvScale(ac, vc*den)))
+	return pvNorm(pvSub(p, q))
+}
+
+// genMeshSDF: MeshToSDF over closed integer-coordinate meshes that are NOT voxel worlds (obtuse and acute
+// corners, slanted faces); the distance is compared with a brute-force minimum over the faces
+func genMeshSDF(rng *rand.Rand, kind int) *primShape {
+	var vs [][3]int
+	var faces [][3]int
+	name := ""
+	switch kind % 3 {
+	case 0:
+		// a tetrahedron with obtuse face angles at vertex 0 on both faces around the ridge 0-1
+		vs = [][3]int{{0, 0, 0}, {1, 0, 0}, {-2, 1, -1}, {-2, -1, -1}}
+		name = "obtuse tetrahedron"
+	case 1:
+		for len(vs) < 4 {
+			vs = [][3]int{{ri(rng, -3, 3), ri(rng, -3, 3), ri(rng, -3, 3)}, {ri(rng, -3, 3), ri(rng, -3, 3), ri(rng, -3, 3)},
+				{ri(rng, -3, 3), ri(rng, -3, 3), ri(rng, -3, 3)}, {ri(rng, -3, 3), ri(rng, -3, 3), ri(rng, -3, 3)}}
+			a, b, c := i3add(vs[1], i3scale(vs[0], -1)), i3add(vs[2], i3scale(vs[0], -1)), i3add(vs[3], i3scale(vs[0], -1))
+			det := a[0]*(b[1]*c[2]-b[2]*c[1]) - a[1]*(b[0]*c[2]-b[2]*c[0]) + a[2]*(b[0]*c[1]-b[1]*c[0])
+			if det == 0 {
+				vs = nil
+			}
+		}
+		name = fmt.Sprintf("tetrahedron %v", vs)
+	default:
+		// a stretched octahedron
+		sx, sy, sz := ri(rng, 1, 3), ri(rng, 1, 3), ri(rng, 1, 3)
+		vs = [][3]int{{sx, 0, 0}, {-sx, 0, 0}, {0, sy, 0}, {0, -sy, 0}, {0, 0, sz}, {0, 0, -sz}}
+		faces = [][3]int{{0, 2, 4}, {2, 1, 4}, {1, 3, 4}, {3, 0, 4}, {2, 0, 5}, {1, 2, 5}, {3, 1, 5}, {0, 3, 5}}
+		name = fmt.Sprintf("octahedron %d %d %d", sx, sy, sz)
+	}
+	if faces == nil {
+		faces = [][3]int{{0, 1, 2}, {0, 3, 1}, {0, 2, 3}, {1, 3, 2}}
+	}
+	mesh := model3d.NewMesh()
+	for _, f := range faces {
+		mesh.Add(&model3d.Triangle{v3c(i3f(vs[f[0]])), v3c(i3f(vs[f[1]])), v3c(i3f(vs[f[2]]))})
+	}
+	signed := 0.0 // (Mesh.Volume is unsigned)
+	mesh.Iterate(func(t *model3d.Triangle) { signed += t[0].Dot(t[1].Cross(t[2])) })
+	if signed < 0 {
+		mesh = mesh.InvertNormals()
+	}
+	tris := mesh.TriangleSlice()
+	sdf := model3d.MeshToSDF(mesh)
+	solid := model3d.NewColliderSolid(model3d.MeshToCollider(mesh))
+	s := &primShape{site: "model3d.MeshToSDF", variant: name, dim: 3, shape: "none"}
+	s.bounds = func() (pvec, pvec) { return c3v(sdf.Min()), c3v(sdf.Max()) }
+	s.contains = func(p pvec) bool { return solid.Contains(v3c(p)) }
+	s.sdf = func(p pvec) float64 { return sdf.SDF(v3c(p)) }
+	s.pointSDF = func(p pvec) (pvec, float64) { c, d := sdf.PointSDF(v3c(p)); return c3v(c), d }
+	s.normalSDF = func(p pvec) (pvec, float64) { c, d := sdf.NormalSDF(v3c(p)); return c3v(c), d }
+	s.oracleDist = func(p pvec) float64 {
+		best := math.Inf(1)
+		for _, t := range tris {
+			if d := bruteTriDist(p, c3v(t[0]), c3v(t[1]), c3v(t[2])); d < best {
+				best = d
+			}
+		}
+		return best
+	}
+	// a mesh field reports the normal of a nearest face: n must be the normal of a face that contains p
+	s.normalAt = func(p, n pvec) bool {
+		for _, t := range tris {
+			if bruteTriDist(p, c3v(t[0]), c3v(t[1]), c3v(t[2])) <= 1e-9 && pvNorm(pvSub(c3v(t.Normal()), n)) <= 1e-9 {
+				return true
+			}
+		}
+		return false
+	}
+	for _, v := range vs {
+		s.special = append(s.special, primSpecial{i3scale(v, 4), "vertex"})
+	}
+	return s
+}
+
 // ---------------------------------------------------------------------------- generators: solids only
 
 // genDegenerateTriangle: a 2-D triangle with collinear or repeated vertices is accepted by the constructor
@@ -1203,6 +1315,7 @@ type primSdfQ struct {
 	Q      []int  `json:"q"`
 	Tag    string `json:"tag"`
 	Onsurf bool   `json:"onsurf"`
+	Orc    bool   `json:"orc"` // |SDF| equals the harness's own brute-force distance (true when there is no such oracle)
 	Sign   bool   `json:"sign"`
 	Agree  bool   `json:"agree"`
 	Pdist  bool   `json:"pdist"`
@@ -1313,6 +1426,7 @@ func primSdfQuery(s *primShape, q [3]int, tag string) primSdfQ {
 	v := s.sdf(c)
 	in := s.contains(c)
 	o.Onsurf = math.Abs(v) < 1e-9
+	o.Orc = s.oracleDist == nil || math.Abs(math.Abs(v)-s.oracleDist(c)) <= 1e-9*(1+math.Abs(v))
 	o.Sign = (v > 0) == in
 	p, vp := s.pointSDF(c)
 	var n pvec
@@ -1337,7 +1451,10 @@ func primSdfQuery(s *primShape, q [3]int, tag string) primSdfQ {
 	// "point" otherwise); on everywhere-smooth shapes NormalSDF is also judged on its own: the
 	// query moved by SDF * normal must land on the surface
 	o.Nout, o.Ncons = true, true
-	if o.Psurf && o.Pdist {
+	if o.Psurf && o.Pdist && s.normalAt != nil {
+		o.Nout = primOutward(s, p, n)
+		o.Ncons = s.normalAt(p, n)
+	} else if o.Psurf && o.Pdist {
 		o.Nout = primOutward(s, p, n)
 		o.Ncons = primNormalAt(s, p, n)
 		if d > 1e-6 && primSmoothAt(s, p) {
@@ -1696,6 +1813,9 @@ func init() {
 		// extruded profiles as distance fields (own stream: the records above do not depend on them)
 		rng2 := rand.New(rand.NewSource(int64(a.int("seed", 1))*7919 + 66))
 		shapes = append(shapes, genProfilePrims(rng2, a.int("n", 4), false)...)
+		for i := 0; i < 2*a.int("n", 4); i++ {
+			shapes = append(shapes, genMeshSDF(rng2, i))
+		}
 		for i, s := range shapes {
 			if i == nFull {
 				rng = rng2
